@@ -10,6 +10,8 @@ mod c12;
 mod c13;
 #[cfg(feature = "rv")]
 mod c19;
+#[cfg(feature = "ap")]
+mod c20;
 mod c18;
 mod c05;
 mod prog;
@@ -28,6 +30,14 @@ fn main() {
     match prop {
         "C18" => c18::run(&mut sink, thorough, seed),
         "C01" | "C02" | "C09" | "C11" | "C14" => c01::run(&mut sink, prop, thorough, seed),
+        "C20" => {
+            // number-alphabet strings for Number::from_str + accessors, typed targets, whole documents, verbatim text
+            c06::run(&mut sink, thorough, seed);
+            c06::exhaustive_number_alphabet(&mut sink, thorough);
+            c01::run(&mut sink, prop, thorough, seed);
+            #[cfg(feature = "ap")]
+            c20::run(&mut sink, thorough, seed);
+        }
         "C19" => {
             // scanner language (IgnoredAny on every generated input) + raw capture (needs raw_value)
             c01::run(&mut sink, prop, thorough, seed);
@@ -64,6 +74,8 @@ fn replay(sink: &mut common::Sink, toks: &[&str]) {
         "pv" | "pi" => c01::replay(sink, toks),
         "pfx" => c10::replay(sink, toks),
         "int" | "acc" | "iprint" => c06::replay(sink, toks),
+        #[cfg(feature = "ap")]
+        "numtext" | "reprint" => c20::replay(sink, toks),
         "stream" => c12::replay(sink, toks),
         "rfault" | "rfaultt" | "sfault" | "wfault" => c13::replay(sink, toks),
         #[cfg(feature = "rv")]
